@@ -77,6 +77,7 @@ type ST3Mid struct {
 
 type ST3 struct {
 	Top  string
+	PPL  **ST3Leaf // a user-declared pointer to a pointer to a struct: a leaf, replaced as a whole
 	Mid  ST3Mid
 	PMid *ST3Mid
 	M    map[string]shape.Pt
